@@ -628,6 +628,27 @@ def check_zoom(chk, entry, order, a, b, mx, my, c, psize, csize):
                      % (entry, entry, entry, n, n, size, order), dict(rep, dtype="complex64"))
 
 
+def check_zoom_int(chk, entry, order, a, mx, my):
+    ip, _, _ = _lib()
+    fn = getattr(ip, entry)
+    n = a.shape[0]
+    af = a.astype(float)
+    sc = max(1.0, float(numpy.abs(af).max()))
+    rep = {"case": "zoom-int", "function": entry, "order": order, "a": a.tolist(), "dtype": str(a.dtype), "mx": mx, "my": my}
+    for size, sl, what in (((n, n), (slice(None), slice(None)), "same-size"),
+                           ((mx * (n - 1) + 1, my * (n - 1) + 1), (slice(None, None, mx), slice(None, None, my)), "nodes")):
+        got, err = _call(fn, a.copy(), size, order)
+        if err:
+            chk.fail("zoom:%s:raises" % entry, "%s(%dx%d %s array, %r, order=%d) raised %s" % (entry, n, n, a.dtype, size, order, err), rep)
+            continue
+        got = numpy.asarray(got)
+        if got.shape != tuple(size) or not _near(numpy.asarray(got, dtype=float)[sl], af, ZT, scale=sc):
+            chk.fail("zoom:%s:%s:integer-image" % (entry, what), "%s(a, %r, order=%d)%s differs from a by %.3g for a %dx%d %s image "
+                     "(values up to %d)" % (entry, size, order, "" if what == "same-size" else "[::%d, ::%d]" % (mx, my),
+                                            float(numpy.abs(numpy.asarray(got, dtype=float)[sl] - af).max()) if got.shape == tuple(size) else float("nan"),
+                                            n, n, a.dtype, int(sc)), rep)
+
+
 def oracle_zoom(chk, n_cases):
     rng = chk.rng
     for it in range(n_cases):
@@ -647,6 +668,12 @@ def oracle_zoom(chk, n_cases):
                 (rng.randint(2, 25), rng.randint(2, 25))      # finer than the input: samples strictly between the nodes
             csize = (rng.randint(2, 20), rng.randint(2, 20))
             check_zoom(chk, entry, order, a, b, mx, my, c, psize, csize)
+            # integer images (detector counts, index maps): the same-size and node clauses hold for them as for float data
+            ai = nprng.integers(-3000, 3000, (n, n)).astype(["int64", "int32", "int16", "uint16"][it % 4] if it % 4 < 3 else "int64")
+            if it % 4 == 3:
+                ai = numpy.abs(ai).astype("uint16")
+            chk.count("oracle:zoom:%s:integer-image:%s" % (entry, ai.dtype))
+            check_zoom_int(chk, entry, order, ai, mx, my)
 
 
 def check_azavg_const(chk, size, c):
@@ -777,7 +804,7 @@ def oracle_ee(chk, n_cases):
             if not perr and numpy.all(numpy.isfinite(probe[1])) and 0 < probe[1][-1] <= 1:
                 fr = min(0.999, max(1e-6, rng.uniform(0, float(probe[1][-1]))))
         # centre: default / the image centre given explicitly / anywhere on the image (float) / a pixel corner
-        cm = ("default", "explicit-default", "float", "integer", "default")[it % 5]
+        cm = ("default", "explicit-default", "float", "integer", "default", "pixel-centre")[it % 6]
         centre = None
         if cm == "explicit-default":
             centre = [dim, dim]
@@ -785,6 +812,13 @@ def oracle_ee(chk, n_cases):
             centre = [rng.uniform(0, size), rng.uniform(0, size)]
         elif cm == "integer":
             centre = [rng.randint(0, size), rng.randint(0, size)]
+        elif cm == "pixel-centre":           # exactly on a pixel centre (the peak pixel of an FFT-made PSF): the radius-0 disc holds a pixel
+            centre = [rng.randint(0, size - 1) + 0.5, rng.randint(0, size - 1) + 0.5]
+            if rng.random() < 0.5:
+                centre = [dim + 0.5, dim + 0.5]
+            data = numpy.array(data, dtype=float, copy=True)
+            data[int(centre[1]), int(centre[0])] += float(data.max()) + 1.0     # … and it is a bright one, on either index convention
+            data[int(centre[0]), int(centre[1])] += float(data.max()) + 1.0
         if centre is not None and rng.random() < 0.6:     # fraction inside the curve of THIS centre
             probe, perr = _call(psf.encircled_energy, data, center=centre, eeDiameter=False)
             if not perr and numpy.all(numpy.isfinite(probe[1])) and 0 < probe[1][-1] <= 1:
